@@ -8,6 +8,7 @@ mod c07;
 mod c09;
 mod c10;
 mod c11;
+mod c17;
 mod content;
 mod driver;
 mod faults;
@@ -63,6 +64,10 @@ macro_rules! with_engine {
                 let $e = c09::C09;
                 $body
             }
+            "C17" => {
+                let $e = c17::C17;
+                $body
+            }
             "C11" => {
                 let $e = c11::C11::new();
                 $body
@@ -79,7 +84,7 @@ macro_rules! with_engine {
     };
 }
 
-pub const ALL_ENGINES: &[&str] = &["C03", "C04", "C05", "C06", "C07", "C08", "C09", "C10", "C11"];
+pub const ALL_ENGINES: &[&str] = &["C03", "C04", "C05", "C06", "C07", "C08", "C09", "C10", "C11", "C17"];
 
 fn do_replay<E: Engine>(engine: &E, path: &Path) -> i32 {
     match runner::replay(engine, path) {
